@@ -354,6 +354,9 @@ PRIM_ALIASES = {
     "rustix::fs::fd::futimens": "std::fs::File::set_times",
     "std::fs::File::set_len": "rustix::fs::fd::ftruncate",
     "std::fs::File::sync_all": "rustix::fs::fd::fsync",
+    "rustix::fs::xattr::fsetxattr": "xattr::FileExt::set_xattr",       # (+ a flags argument, checked by C10)
+    "rustix::fs::xattr::fgetxattr": "xattr::FileExt::get_xattr",
+    "rustix::fs::xattr::flistxattr": "xattr::FileExt::list_xattr",
 }
 FICLONE_REQ = 0x40049409
 FIEMAP_REQ = 0xC020660B
